@@ -14,11 +14,12 @@ must give back the species that were written.
 import ast
 import itertools
 import re
+from fractions import Fraction
 
 from ..absstr import SegStr
 from ..nf import Rat, C
-from ..source import Unsupported, AnchorError, norm
-from ..xlate import Interp, Obj, ListV, DictV, Raised, RankOrder
+from ..source import Unsupported, AnchorError, norm, params
+from ..xlate import Interp, Obj, ListV, DictV, Raised, RankOrder, _RaisedExc
 from .common import same, show
 
 TD = 'pmutt.io.thermdat'
@@ -29,9 +30,10 @@ FILL = 'Q'          # padding of a spelled-out text: no chemical meaning, in no 
 WITNESS = {'mid': lambda d: 5 * 10 ** (d - 1), 'lo': lambda d: 10 ** (d - 1), 'hi': lambda d: 10 ** d - 1}
 
 
-def make_species(I, idx, name_w, notes, elements, temps_w, phase_w=1, counts='mid'):
-    """elements: list of (symbol width, count digits or 0 for a zero-count entry); name, notes and phase: a width (the
-    text is symbolic) or the text itself"""
+def make_species(I, idx, name_w, notes, elements, temps_w, phase_w=1, coefs=None, counts='mid'):
+    """elements: list of (symbol width or the symbol itself, count digits or 0 for a zero-count entry); name, notes and
+    phase: a width (the text is symbolic) or the text itself; temperatures: a printed width (the number is symbolic) or
+    the number itself (a Fraction / float); coefs: None (fourteen symbols) or (a_low, a_high) as numbers"""
     D = I.D
     tag = 's%d' % idx
     if isinstance(name_w, str):
@@ -51,8 +53,11 @@ def make_species(I, idx, name_w, notes, elements, temps_w, phase_w=1, counts='mi
         I.sym_strings[nv] = (notes, 'text')
     el = DictV()
     for k, (sw, digits) in enumerate(elements):
-        sym = Z + '%s.el%d' % (tag, k)
-        I.sym_strings[sym] = (sw, 'alpha')
+        if isinstance(sw, str):
+            sym = sw                    # a concrete symbol
+        else:
+            sym = Z + '%s.el%d' % (tag, k)
+            I.sym_strings[sym] = (sw, 'alpha')
         cnt = D.sym('%s.n%d' % (tag, k))
         I.order.ranks['%s.n%d' % (tag, k)] = WITNESS[counts](digits) if digits else 0   # a witness with that many digits
         I.int_syms.add('%s.n%d' % (tag, k))           # element counts are whole numbers
@@ -61,11 +66,17 @@ def make_species(I, idx, name_w, notes, elements, temps_w, phase_w=1, counts='mi
         el.d[sym] = cnt
     attrs = {'name': name, 'notes': nv, 'phase': phase, 'elements': el}
     for tn, w in zip(('T_low', 'T_high', 'T_mid'), temps_w):
-        t = D.sym('%s.%s' % (tag, tn))
-        I.num_widths[repr(t)] = w
+        if isinstance(w, (Fraction, float)):
+            t = C(Fraction(w))          # a concrete temperature: printed and read back as Python does it
+        else:
+            t = D.sym('%s.%s' % (tag, tn))
+            I.num_widths[repr(t)] = w
         attrs[tn] = t
-    for vn in ('a_low', 'a_high'):
-        v = ListV([D.sym('%s.%s[%d]' % (tag, vn, i)) for i in range(7)])
+    for j, vn in enumerate(('a_low', 'a_high')):
+        if coefs is not None:
+            v = ListV([C(Fraction(x)) for x in coefs[j]])
+        else:
+            v = ListV([D.sym('%s.%s[%d]' % (tag, vn, i)) for i in range(7)])
         v.is_array = True
         attrs[vn] = v
     return Obj(tag, attrs=attrs)
@@ -95,6 +106,14 @@ def val_eq(I, a, b, need=None):
     if isinstance(a, Rat) and isinstance(b, Rat):
         if a.eq(b):
             return True
+        if need == 'T' and all(x.is_const() or x.iszero() for x in (a, b)):
+            # concrete temperatures: the tolerance the property states
+            num = lambda x: Fraction(0) if x.iszero() else Fraction(x.const_value())
+            return abs(num(a) - num(b)) <= Fraction(1, 10)
+        if need == 'coef' and all(x.is_const() or x.iszero() for x in (a, b)):
+            # concrete coefficients: nine significant digits (half a unit of the ninth)
+            num = lambda x: Fraction(0) if x.iszero() else Fraction(x.const_value())
+            return abs(num(a) - num(b)) <= abs(num(b)) * Fraction(5, 10 ** 9)
         # a number read back from its printed form (or through any other step that rounds, which the interpreter
         # records the same way): the value that went in, if every step keeps the stated precision
         ats = list(a.atoms())
@@ -111,34 +130,123 @@ def val_eq(I, a, b, need=None):
     return a == b
 
 
+_STRFTIME_W = {'Y': 4, 'm': 2, 'd': 2, 'H': 2, 'M': 2, 'S': 2, 'y': 2, 'j': 3, 'f': 6, '%': 1}
+
+
+def strftime_text(fmt_):
+    """the text strftime makes of a date nobody knows: a field of digits and separators whose width is fixed by the
+    directives (those whose width depends on the date or the locale - %B, %A, %c ... - are not modelled)"""
+    if not isinstance(fmt_, str) or Z in fmt_:
+        raise Unsupported('strftime with a symbolic format')
+    w, i_ = 0, 0
+    while i_ < len(fmt_):
+        if fmt_[i_] == '%' and i_ + 1 < len(fmt_):
+            if fmt_[i_ + 1] not in _STRFTIME_W:
+                raise Unsupported('strftime directive %%%s' % fmt_[i_ + 1])
+            w += _STRFTIME_W[fmt_[i_ + 1]]
+            i_ += 2
+        else:
+            w += 1
+            i_ += 1
+    return SegStr.field('date', w, 'num')
+
+
+def clock_stub(kind):
+    """a datetime / date / struct_time of an unknown day.  Modelled members: strftime and __format__ (the same thing),
+    date() of a datetime; any other member the real object has is outside the model (refused, never an AttributeError
+    the program would not see)"""
+    o = Obj('now<%s>' % kind, closed=True)
+
+    def strftime(I2, o2, a, k):
+        return strftime_text(a[0] if a else k.get('format'))
+
+    def fmt(I2, o2, a, k):
+        spec = a[0] if a else ''
+        if spec == '':
+            raise Unsupported('str() of a date')
+        return strftime_text(spec)
+    if kind != 'time.struct_time':
+        o.opaque_methods['strftime'] = strftime
+        o.opaque_methods['__format__'] = fmt
+    if kind == 'datetime.datetime':
+        o.opaque_methods['date'] = lambda I2, o2, a, k: clock_stub('datetime.date')
+    import datetime as _dt
+    import time as _time
+    real = {'datetime.datetime': _dt.datetime, 'datetime.date': _dt.date, 'time.struct_time': _time.struct_time}[kind]
+    for name in dir(real):
+        if name not in o.opaque_methods and not name.startswith('__'):
+            o.opaque_methods[name] = _refuse('%s.%s' % (kind, name))
+    return o
+
+
+def _refuse(what):
+    def f(I2, o2, a, k):
+        raise Unsupported('%s (no model)' % what)
+    return f
+
+
+def signed_literals_modelled(repo):
+    """does the interpreter convert the text of a negative number the way Python does?"""
+    from ..xlate import builtin_call, Frame
+    I = Interp(repo)
+    fr = Frame(I, repo.module(TD), {}, None, None)
+    try:
+        v = builtin_call(I, fr, 'float', ['-1.50000000E+00'], {}, None)
+    except (Unsupported, _RaisedExc):
+        return False
+    return isinstance(v, Rat) and v.eq(C(Fraction(-3, 2)))
+
+
 def new_interp(repo, sign=None):
     I = Interp(repo, order=RankOrder({}, const_ranks=True))
     I.track_print_precision = True      # what is read back is the number as printed, not the number that was printed
     I.sign_policy = sign                # None: any sign; 'nonnegative' / 'negative': all numbers of this run
 
-    def now(I_, fr, args, kwargs, n):
-        o = Obj('now')
+    # the clock: every way the standard library hands out "today" gives an object (or, for time.strftime, a text) whose
+    # printed form has the width the directives of the format add up to, whatever the date is
+    for qual in ('datetime.datetime.now', 'datetime.datetime.today', 'datetime.datetime.utcnow', 'datetime.date.today'):
+        I.native[qual] = lambda I_, fr, args, kwargs, n, qual=qual: clock_stub(qual.rsplit('.', 1)[0])
+    for qual in ('time.localtime', 'time.gmtime'):
+        I.native[qual] = lambda I_, fr, args, kwargs, n: clock_stub('time.struct_time')
 
-        def strftime(I2, o2, a, k):
-            fmt_ = a[0] if a else k.get('format')
-            if not isinstance(fmt_, str):
-                raise Unsupported('strftime with a symbolic format')
-            widths = {'Y': 4, 'm': 2, 'd': 2, 'H': 2, 'M': 2, 'S': 2, 'y': 2, 'j': 3, 'f': 6, '%': 1}
-            w, i_ = 0, 0
-            while i_ < len(fmt_):
-                if fmt_[i_] == '%' and i_ + 1 < len(fmt_):
-                    if fmt_[i_ + 1] not in widths:
-                        raise Unsupported('strftime directive %%%s' % fmt_[i_ + 1])
-                    w += widths[fmt_[i_ + 1]]
-                    i_ += 2
-                else:
-                    w += 1
-                    i_ += 1
-            return SegStr.field('date', w, 'num')
-        o.opaque_methods['strftime'] = strftime
-        return o
-    I.native['datetime.datetime.now'] = now
+    def time_strftime(I_, fr, args, kwargs, n):
+        if not args or len(args) > 2 or kwargs:
+            raise Unsupported('time.strftime with these arguments', n)
+        return strftime_text(args[0])
+    I.native['time.strftime'] = time_strftime
     return I
+
+
+NASA = 'pmutt.empirical.nasa.Nasa'
+
+
+def nasa_stub(repo, built, tag):
+    """what the reader builds: the arguments of ``Nasa(...)`` under the names the constructor gives them - positional
+    arguments are bound through the signature of the real ``Nasa.__init__`` (its named parameters in order; everything
+    else travels on as keyword arguments to the base class, which stores ``name``, ``phase``, ``elements``, ``notes``
+    under these names), keyword arguments by name; an argument given twice or one too many is the TypeError it is in
+    Python"""
+    owner, init = repo.find_method(repo.cls(NASA), '__init__')
+    names, defaults, vararg, kwarg = params(init)
+    pos_names = [x.arg for x in init.args.posonlyargs + init.args.args][1:]
+    required = [n_ for n_ in pos_names if n_ not in defaults]
+
+    def build(I_, fr, args, kwargs):
+        attrs = {}
+        if len(args) > len(pos_names) and not vararg:
+            raise _RaisedExc(Raised('TypeError', init))
+        for n_, v in zip(pos_names, args):
+            attrs[n_] = v
+        for k, v in kwargs.items():
+            if k in attrs or (k not in names and not kwarg):
+                raise _RaisedExc(Raised('TypeError', init))
+            attrs[k] = v
+        if any(n_ not in attrs for n_ in required):
+            raise _RaisedExc(Raised('TypeError', init))
+        o = Obj('%s%d' % (tag, len(built)), attrs=attrs)
+        built.append(o)
+        return o
+    return build
 
 
 COMMENT = '! species fitted in this work'
@@ -155,11 +263,8 @@ def roundtrip(run, repo, label, specs, write_date=False, as_dict=False, fmt='lis
     I = reuse['I'] if reuse is not None else new_interp(repo, sign)
     built = []
 
-    def nasa_stub(I_, fr, args, kwargs):
-        o = Obj('read#%d.%d' % (tag0, len(built)), attrs=dict(kwargs))
-        built.append(o)
-        return o
-    I.opaque_classes['pmutt.empirical.nasa.Nasa'] = nasa_stub
+    I.opaque_classes[NASA] = nasa_stub(repo, built, 'read#%d.' % tag0)
+    I.hazards = []
     species = [make_species(I, tag0 + i, *sp, counts=counts) for i, sp in enumerate(specs)]
     if order is not None:
         species = [species[i] for i in order]          # a sequence may hold the same species (name) more than once
@@ -191,7 +296,9 @@ def roundtrip(run, repo, label, specs, write_date=False, as_dict=False, fmt='lis
         wkw['filename'] = 'thermdat'
     text = I.call_function(m, wfn, [], wkw)
     species = expect
-    res = {'I': I, 'species': species, 'text': text, 'read': None, 'built': built, 'fmt': fmt}
+    # tests of the writer whose outcome depends on how the user spelled a text (decided 'no' by the symbolic run)
+    res = {'I': I, 'species': species, 'text': text, 'read': None, 'built': built, 'fmt': fmt,
+           'write_hazards': list(I.hazards)}
     if to_file:
         if isinstance(text, Raised):
             res['write_error'] = text
@@ -211,6 +318,7 @@ def roundtrip(run, repo, label, specs, write_date=False, as_dict=False, fmt='lis
     I.cuts = []
     out = I.call_function(m, rfn, [], {'filename': 'thermdat', 'format': fmt})
     res['read'] = out
+    res['read_hazards'] = list(I.hazards)
     return res
 
 
@@ -220,11 +328,7 @@ def read_again(repo, res, fmt):
     I = res['I']
     built = []
 
-    def nasa_stub(I_, fr, args, kwargs):
-        o = Obj('again#%d' % len(built), attrs=dict(kwargs))
-        built.append(o)
-        return o
-    I.opaque_classes['pmutt.empirical.nasa.Nasa'] = nasa_stub
+    I.opaque_classes[NASA] = nasa_stub(repo, built, 'again#')
     out = dict(res)
     out['built'] = built
     out['fmt'] = fmt
@@ -425,19 +529,26 @@ def text_fields(specs):
         pw = sp[4] if len(sp) > 4 else 1
         if isinstance(pw, int):
             out.append((i, 4, 'phase', pw))
+        for k, (sw, _) in enumerate(sp[2]):
+            if isinstance(sw, int):
+                out.append((i, (2, k), 'element symbol %d' % k, sw))
     return out
 
 
 def both_outcomes(run, repo, hz, thorough):
-    """a test on a record line whose outcome depends on the spelling of a user text was decided 'no' by the symbolic
-    run; the same instances with the text spelled so that it says 'yes' must give back the same species.  The one
-    spelling left out is a name that begins with '!': '!' in column 1 is the comment marker of the Chemkin format, a
-    file cannot hold such a name whatever the reader does."""
+    """a test (of the reader on a record line, or of the writer on a species) whose outcome depends on the spelling of
+    a user text was decided 'no' by the symbolic run; the same instances with the text spelled so that it says 'yes'
+    must give back the same species, in the same order.  The one spelling left out is a name that begins with '!':
+    '!' in column 1 is the comment marker of the Chemkin format, a file cannot hold such a name whatever the reader
+    does."""
     m = repo.module(TD)
     lit = hz['lit']
     node = hz['node']
-    key = 'skip-test:' + norm(node)[:60]
-    hosts = [c for c in hz['seen'] if any(w >= len(lit) for _, _, _, w in text_fields(c[1]))]
+    side = hz.get('side', 'read')
+    construct = 'thermdat.%s_thermdat' % side
+    key = ('skip-test:' if side == 'read' else 'text-test:') + norm(node)[:60]
+    hosts = [c for c in hz['seen'] if any(w >= len(lit) and (lit.isalpha() or not what.startswith('element'))
+                                          for _, _, what, w in text_fields(c[1]))]
     if not hosts:
         return None
     single = [c for c in hosts if len(c[1]) == 1]
@@ -446,26 +557,35 @@ def both_outcomes(run, repo, hz, thorough):
     if thorough:
         chosen, sigs = [], set()
         for c in hosts:
-            sg = tuple(sorted((what, w) for _, _, what, w in text_fields(c[1]))) + \
+            sg = tuple(sorted((what.split()[0], w) for _, _, what, w in text_fields(c[1]))) + \
                 tuple(sorted((k_, v_) for k_, v_ in c[2].items() if k_ != 'counts'))
             if sg not in sigs:
                 sigs.add(sg)
                 chosen.append(c)
     else:
-        # quick: the instance with the widest texts (a single species if there is one: a record that is skipped or
-        # cut there leaves nothing to attach the following records to); thorough: every shape the test was met in
-        chosen = sorted(single, key=width)[-1:] or multi[:1]
+        # quick: the single species with the widest texts (a record that is skipped or cut there leaves nothing to attach
+        # the following records to) and one collection of several species (one of them spelled out, the others not:
+        # a test that sorts, groups or drops species by their texts shows there); thorough: every shape the test was
+        # met in
+        chosen = sorted(single, key=width)[-1:] + multi[:1]
     n_w = 0
     for label, specs, kw in chosen:
         many = len(specs) > 1
         for i, pos, what, w in text_fields(specs):
-            if many and not thorough and what != 'name':
-                continue
-            for sp_ in spellings(w, lit, thorough):
+            sps = spellings(w, lit, thorough)
+            if what.startswith('element') and not lit.isalpha():
+                continue                        # element symbols are letters
+            if many and not thorough:
+                sps = sps[:1]                   # each text of each species once, the literal at its start
+            for sp_ in sps:
                 if what == 'name' and sp_.startswith('!'):
                     continue
                 spec2 = list(specs[i]) + [1] * (5 - len(specs[i]))
-                spec2[pos] = sp_
+                if isinstance(pos, tuple):
+                    spec2[pos[0]] = list(spec2[pos[0]])
+                    spec2[pos[0]][pos[1]] = (sp_, spec2[pos[0]][pos[1]][1])
+                else:
+                    spec2[pos] = sp_
                 specs2 = list(specs)
                 specs2[i] = tuple(spec2)
                 lbl = '%s; %s of species %d spelled %r' % (label, what, i, sp_)
@@ -476,9 +596,11 @@ def both_outcomes(run, repo, hz, thorough):
                              % (lbl, show(res['write_error'])), m, m.functions['write_thermdat'])
                     continue
                 bad = [d for d in species_diff(repo, res, lbl) if d[1] is not None]
-                run.check(not bad, 'PATH.record-safe', 'thermdat.read_thermdat', key,
-                          'the file does not read back as written when a text contains %r, which the reader tests for '
-                          'on a species record (%s): %s' % (lit, hz['txt'][:100], bad[0][1] if bad else ''), m, node)
+                run.check(not bad, 'PATH.record-safe', construct, key,
+                          'the file does not read back as written when a text contains %r, which the %s tests for '
+                          'on a species%s (%s): %s' % (lit, 'reader' if side == 'read' else 'writer',
+                                                       ' record' if side == 'read' else '', hz['txt'][:100],
+                                                       bad[0][1] if bad else ''), m, node)
     return n_w
 
 
@@ -518,11 +640,13 @@ def check(run, repo):
             layout_rules(run, repo, res, label)
         compare_species(run, repo, res, label, ' [%s]' % label if suffix is None else suffix)
         if collect:
-            for node, txt in res['I'].hazards:
-                lit = hazard_literal(txt)
-                h = hazards.setdefault((id(node), lit), {'node': node, 'txt': txt, 'lit': lit, 'seen': []})
-                if 'reuse' not in kw:
-                    h['seen'].append((label, specs, dict(kw)))
+            for side in ('write', 'read'):
+                for node, txt in res[side + '_hazards']:
+                    lit = hazard_literal(txt)
+                    h = hazards.setdefault((id(node), lit), {'node': node, 'txt': txt, 'lit': lit, 'seen': [],
+                                                             'side': side})
+                    if 'reuse' not in kw and (label, specs, kw) not in h['seen']:
+                        h['seen'].append((label, specs, dict(kw)))
         return res
 
     temps = [(5, 6, 6), (3, 5, 4)]
@@ -547,8 +671,9 @@ def check(run, repo):
             for ec in el_cfgs[:10]:
                 cases.append((nw, nt, ec, tw))
     # concrete names that are not in alphabetical order (nor in reverse): the order of the collection is kept
-    named = [('ZRO2', 5, [(1, 1), (2, 2)], (5, 6, 6)), ('AR', None, [(1, 2)], (3, 5, 4)),
-             ('CH4(S)', 5, [(1, 1), (1, 1)], (5, 6, 6))]
+    # (with the phases a surface mechanism has, not grouped: a surface species, a gas, a surface species)
+    named = [('ZRO2', 5, [(1, 1), (2, 2)], (5, 6, 6), 'S'), ('AR', None, [(1, 2)], (3, 5, 4), 'G'),
+             ('CH4(S)', 5, [(1, 1), (1, 1)], (5, 6, 6), 'S')]
     for as_dict, fmt in ((True, 'dict'), (True, 'list'), (False, 'list')):
         label = 'concrete names ZRO2, AR, CH4(S) input=%s format=%s' % ('dict' if as_dict else 'list', fmt)
         instance(label, named, layout=False, suffix=' [concrete names]', collect=False, as_dict=as_dict, fmt=fmt)
@@ -565,6 +690,44 @@ def check(run, repo):
                                                           'dict' if as_dict else 'list', fmt)
         instance(label, sel, layout=False, suffix=' [names with keywords and punctuation]', collect=False,
                  as_dict=as_dict, fmt=fmt)
+    # every text and number spelled out, each species another way: names that begin with each printable character
+    # that is not a letter or digit (thorough: with every printable character; '!' excepted, see above), every
+    # single-character phase (quick: the lower-case letters, digits, punctuation - the upper-case ones stand in the
+    # instances above), one- and two-letter element symbols in upper, lower and mixed case, and temperatures at both
+    # ends of the range and with more decimals than are printed (a bound of a fit over a grid: 1000/3 K)
+    printable = [chr(c_) for c_ in range(33, 127)]
+    firsts = [c_ for c_ in printable if c_ != '!' and (thorough or not c_.isalnum())]
+    phases_ = printable if thorough else list('abcdefghijklmnopqrstuvwxyz10*(!')
+    symbols = ['PT', 'Cl', 'H', 'pt', 'AR', 'o', 'Zr', 'N']
+    tsets = [(Fraction(1000, 3), 3500.0, 1000.0), (1.0, 9999.9, 416.67),
+             (Fraction(10000, 7), Fraction(20000, 3), 2500.55), (5, 6, 6)]
+    # coefficients of either sign, 1e-30 .. 1e30, exactly zero, with a ninth digit that matters; none negative (the
+    # sign column of every field is a blank); none positive
+    csets = [None,
+             ([1.5, 2.25e-3, 1.00000005e-6, 3.5e-10, 9.99999995e-30, 1.0e30, 0.0],
+              [2.5, 0.0, 4.75e-7, 1.23456789e-11, 6.0e-15, 1.2e4, 7.125]),
+             ([-1.5, 2.25e-3, -1.00000005e-6, 0.0, -9.99999995e-30, -1.0e30, 3.0],
+              [3.25, -8.5e-4, 4.75e-7, -1.23456789e-11, 0.0, -1.2e4, -7.125]),
+             None,
+             ([-1.5, -2.25e-3, -1.0e-6, -3.5e-10, -1.0e-30, -1.0e30, -3.0],
+              [-2.5, -8.5e-4, -4.75e-7, -1.0e-11, -6.0e-15, -1.2e4, -7.125])]
+    if not signed_literals_modelled(repo):
+        # float('-1.5E+00') is not modelled yet (the model raises ValueError): the sets with negative numbers wait
+        csets = [c_ if c_ is None or min(c_[0] + c_[1]) >= 0 else None for c_ in csets]
+        run.extra['concrete negative coefficients'] = 'not armed (float() of a signed literal is not modelled)'
+    alphabet = []
+    for k in range(max(len(firsts), len(phases_))):
+        alphabet.append((firsts[k % len(firsts)] + 'N%d' % k, [None, 5, '', 8][k % 4],
+                         [(symbols[k % 8], 1 + k % 3), (symbols[(k + 3) % 8], 1 + (k // 3) % 3)][:1 + k % 2],
+                         tsets[k % 4], phases_[k % len(phases_)], csets[k % 5]))
+    shapes = ((False, 'list'), (True, 'dict'), (False, 'tuple'), (True, 'list'))
+    for j in range(0, len(alphabet), 32):
+        as_dict, fmt = shapes[(j // 32) % 4]
+        sel = alphabet[j:j + 32]
+        label = 'species %s ... %s spelled out, input=%s format=%s' % (sel[0][0], sel[-1][0],
+                                                                       'dict' if as_dict else 'list', fmt)
+        instance(label, sel, layout=False, suffix=' [first characters, phases, symbols, numbers spelled out]',
+                 collect=False, as_dict=as_dict, fmt=fmt)
     for case in cases:
         label = 'name=%d notes=%s elements=%s temps=%s' % (case[0], case[1], case[2], case[3])
         wide = any(sw == 2 and dg == 3 for sw, dg in case[2])
@@ -585,7 +748,9 @@ def check(run, repo):
         for fmt in ('list', 'tuple', 'dict'):
             for wd in (False, True):
                 label = '3 species input=%s format=%s date=%s' % ('dict' if as_dict else 'list', fmt, wd)
-                instance(label, multi, suffix='', collect=False, write_date=wd, as_dict=as_dict, fmt=fmt)
+                # text-dependent tests met here are decided both ways on one list and one dict collection
+                instance(label, multi, suffix='', collect=not wd and fmt == ('dict' if as_dict else 'list'),
+                         write_date=wd, as_dict=as_dict, fmt=fmt)
     # a sequence in which one species (one name) occurs more than once: a sequence is written entry by entry, in order
     for order, fmt in (((0, 1, 0), 'list'), ((0, 0), 'tuple'), ((1, 0, 2, 0, 1), 'list')):
         label = 'sequence with repeated species %s format=%s' % (list(order), fmt)
@@ -660,7 +825,11 @@ def check(run, repo):
     n_wit = 0
     for _, hz in sorted(hazards.items(), key=lambda kv: (getattr(kv[1]['node'], 'lineno', 0), str(kv[1]['lit']))):
         done = both_outcomes(run, repo, hz, thorough) if hz['lit'] is not None else None
-        if done is None:
+        if done is None and hz['side'] == 'write':
+            run.fail('PATH.record-safe', 'thermdat.write_thermdat', 'text-test:' + norm(hz['node'])[:60],
+                     'what is written for a species depends on how its texts are spelled: the writer uses %s'
+                     % hz['txt'][:160], m, hz['node'])
+        elif done is None:
             # nothing names a text that could be spelled out: the dependence itself is the finding
             run.fail('PATH.record-safe', 'thermdat.read_thermdat', 'skip-test:' + norm(hz['node'])[:60],
                      'a species record can be skipped (and the following records merged into the previous species) '
@@ -720,6 +889,49 @@ MUTANTS = [
     {'name': 'short lines starting with END or THERMO are keywords, whatever their length (a species named END...)',
      'expect': ('PATH.record-safe', 'read_thermdat'),
      'edits': [(T_, "            is_record = len(line.rstrip()) >= 80\n", "            is_record = not (line.startswith('END') or line.startswith('THERMO'))\n")]},
+    # white-box round 3
+    {'name': 'lower temperature bound printed with ten significant digits (333.3333333 runs into the next field)',
+     'expect': ('TABLE', ''),
+     'edits': [(T_, "'%.1f' % nasa_specie.T_low", "'%.10g' % nasa_specie.T_low")]},
+    {'name': 'upper temperature bound printed with six decimals (from 1000 K on it runs into the next field)',
+     'expect': ('TABLE', ''),
+     'edits': [(T_, "'%.1f' % nasa_specie.T_high", "'%.6f' % nasa_specie.T_high")]},
+    {'name': 'gas-phase species written first', 'expect': ('PATH.record-safe', 'write_thermdat'),
+     'edits': [(T_, "    for nasa_specie in nasa_iter:\n        lines.append(_write_line1(nasa_specie, write_date))",
+                "    nasa_iter = list(nasa_iter)\n    nasa_iter = ([x for x in nasa_iter if x.phase == 'G'] +\n"
+                "                 [x for x in nasa_iter if x.phase != 'G'])\n"
+                "    for nasa_specie in nasa_iter:\n        lines.append(_write_line1(nasa_specie, write_date))")]},
+    {'name': 'species of one phase written together (stable sort by phase)', 'expect': ('TABLE.readback', 'read_thermdat'),
+     'edits': [(T_, "    for nasa_specie in nasa_iter:\n        lines.append(_write_line1(nasa_specie, write_date))",
+                "    nasa_iter = sorted(nasa_iter, key=lambda x: x.phase)\n"
+                "    for nasa_specie in nasa_iter:\n        lines.append(_write_line1(nasa_specie, write_date))")]},
+    {'name': 'phase g written as G', 'expect': ('TABLE.readback', 'read_thermdat'),
+     'edits': [(T_, "        nasa_specie.phase,\n        '%.1f' % nasa_specie.T_low,",
+                "        'G' if nasa_specie.phase == 'g' else nasa_specie.phase,\n        '%.1f' % nasa_specie.T_low,")]},
+    {'name': 'composition parsed with a regular expression that wants Xx capitalisation (PT reads back as T)',
+     'expect': ('TABLE.readback', 'read_thermdat'),
+     'edits': [(T_, "from datetime import datetime\n", "import re\nfrom datetime import datetime\n"),
+               (T_, "        nasa_data['elements'][element] = coeff\n",
+                "        nasa_data['elements'][element] = coeff\n"
+                "    nasa_data['elements'] = {el: int(nn) for el, nn in\n"
+                "                             re.findall(r'([A-Z][a-z]?) *(\\d+)', line[24:44])}\n")]},
+    {'name': '# and * accepted as comment markers (species named *CO or #OH are dropped)',
+     'expect': ('TABLE.readback', 'read_thermdat'),
+     'edits': [(T_, "            if line[0] == '!':", "            if line[0] in ('!', '#', '*'):")]},
+    {'name': 'phase letter normalised through a table when reading (g reads back as G)',
+     'expect': ('TABLE.readback', 'read_thermdat'),
+     'edits': [(T_, "    nasa_data['phase'] = line[phase_pos]",
+                "    nasa_data['phase'] = {'g': 'G', 'l': 'L', 's': 'S'}.get(line[phase_pos], line[phase_pos])")]},
+    {'name': 'Nasa built from positional arguments in the order of the file (T_low, T_high, T_mid)',
+     'expect': ('TABLE.readback', 'read_thermdat'),
+     'edits': [(T_, "species.append(Nasa(**nasa_data))",
+                "species.append(Nasa(nasa_data['name'], nasa_data['T_low'], nasa_data['T_high'], nasa_data['T_mid'],\n"
+                "                                    nasa_data['a_low'], nasa_data['a_high'], elements=nasa_data['elements'],\n"
+                "                                    phase=nasa_data['phase'], notes=nasa_data.get('notes')))")]},
+    {'name': 'temperature header test looks at the first three fields only (a record of non-negative coefficients '
+             'is skipped)', 'expect': ('TABLE.readback', 'read_thermdat'),
+     'edits': [(T_, "    for field in fields:\n        # See if the field is a float",
+                "    for field in fields[:3]:\n        # See if the field is a float")]},
 ]
 EQUIV = [
     {'name': 'reader positions computed', 'edits': [(T_, "    positions = [0, 15, 30, 45]\n    offset = 15\n\n    j = 3", "    offset = 15\n    positions = [offset * k for k in range(4)]\n\n    j = 3")]},
@@ -732,4 +944,17 @@ EQUIV = [
     {'name': 'record 2 written with %-formatting',
      'edits': [(T_, "    line = ('{: 2.8E}{: 2.8E}{: 2.8E}{: 2.8E}{: 2.8E}    2\\n'\n            ''.format(nasa_specie.a_high[0], nasa_specie.a_high[1],\n                      nasa_specie.a_high[2], nasa_specie.a_high[3],\n                      nasa_specie.a_high[4]))",
                 "    line = ''.join(['% .8E' % nasa_specie.a_high[i] for i in range(5)]) + '    2\\n'")]},
+    # white-box round 3
+    {'name': 'Nasa built from positional arguments in the order of its signature',
+     'edits': [(T_, "species.append(Nasa(**nasa_data))",
+                "species.append(Nasa(nasa_data['name'], nasa_data['T_low'], nasa_data['T_mid'], nasa_data['T_high'],\n"
+                "                                    nasa_data['a_low'], nasa_data['a_high'], elements=nasa_data['elements'],\n"
+                "                                    phase=nasa_data['phase'], notes=nasa_data.get('notes')))")]},
+    {'name': 'date stamp from datetime.today()',
+     'edits': [(T_, "        now = datetime.now()\n        notes = now.strftime('%Y%m%d')",
+                "        notes = datetime.today().strftime('%Y%m%d')")]},
+    {'name': 'date stamp from time.strftime',
+     'edits': [(T_, "from datetime import datetime\n", "import time\nfrom datetime import datetime\n"),
+               (T_, "        now = datetime.now()\n        notes = now.strftime('%Y%m%d')",
+                "        notes = time.strftime('%Y%m%d')")]},
 ]
